@@ -35,6 +35,31 @@ fn main() {
                 if t.elapsed().as_secs_f64() > 0.5 { eprintln!("   SLOW {:?}", t.elapsed()); }
             }}}
         }
+        "hyperwords" => {
+            // development aid: words per call of Hypergeometric for huge N (H2PE set-up precision)
+            report::quiet_panics();
+            for e in 36..=63u32 {
+                for half in [0u32, 1] {
+                    let nn = if half == 0 { 1u64 << e } else { (1u64 << e) / 2 * 3 };
+                    if nn > i64::MAX as u64 { continue; }
+                    let mut line = format!("N=2^{e}{} ", if half == 1 { "*1.5" } else { "" });
+                    for &(fk, fnn) in &[(0.5, 0.5), (0.4, 0.3), (0.1, 0.05), (1e-3, 0.3), (0.3, 1e-4)] {
+                        let (kk, n) = ((nn as f64 * fk) as u64, (nn as f64 * fnn) as u64);
+                        if families::hyper_cost(nn, kk, n) > families::HYPER_COST_MAX { line += "[cost] "; continue; }
+                        let cell = families::Cell::newi(families::Fam::Hypergeometric, &[nn, kk, n], &[]);
+                        let s = match report::catch(|| families::build(&cell)) { Ok(Ok(s)) => s, Ok(Err(e)) => { line += &format!("[{}] ", e.chars().take(12).collect::<String>()); continue; } Err(_) => { line += "[ctor panic] "; continue; } };
+                        let (mut tot, mut over, mut pan) = (0u64, 0u64, 0u64);
+                        for seed in 0..50u64 {
+                            let mut rng = rng::VRng::from_env(seed);
+                            rng.begin_call();
+                            match report::catch(|| s.sample_v(&mut rng)) { Ok(_) => tot += rng.call_words, Err(m) => if m.starts_with("WORD") { over += 1 } else { pan += 1 } }
+                        }
+                        line += &format!("[{:.1}w o{} p{}] ", tot as f64 / (50 - over - pan).max(1) as f64, over, pan);
+                    }
+                    println!("{line}");
+                }
+            }
+        }
         "selftest" => {
             // calibration of the statistical rule + golden agreement; `--fast` = 1 repeat at n = 1e6
             let fast = args.iter().any(|a| a == "--fast");
